@@ -50,3 +50,9 @@ Theorem C16_pdeathsig_before_setuid_refuted :
   exists s, lreach ArmEarly s /\ l_t s = LaunchDeath.TDead /\ l_c s = LaunchDeath.CProgram.
 Proof. exact arm_early_refuted. Qed.
 Print Assumptions C16_pdeathsig_before_setuid_refuted.
+
+(** the classic orphan test "getppid() == 1" in place of the comparison with the launcher's pid: under a child subreaper a
+    launcher killed during the child's set-up goes unnoticed and the child is left stopped for ever *)
+Theorem C16_orphan_idiom_refuted : exists s, lreach ArmLateOrphanIdiom s /\ l_t s = LaunchDeath.TDead /\ l_c s = LaunchDeath.CParked.
+Proof. exact orphan_idiom_refuted. Qed.
+Print Assumptions C16_orphan_idiom_refuted.
